@@ -164,6 +164,9 @@ def traceSq (d : Nat) (Q : Nat → Nat → α) : α :=
 def nematicTrace (sqrt : α → α) (d : Nat) (Q : Nat → Nat → α) : α :=
   sqrt (traceSq d Q * ((d : α) / ((d - 1 : Nat) : α)))
 
+/-- `np.linalg.eig(Q)[0].max() * 2.0` given the largest eigenvalue -/
+def nematicEig (lamMax : α) : α := lamMax * ((2 : Nat) : α)
+
 /-- `np.trace(Q)` -/
 def trace (d : Nat) (Q : Nat → Nat → α) : α := sumRange d fun x => Q x x
 
